@@ -107,7 +107,7 @@ def xorAt (b : Bytes) (off : Nat) (x : UInt8) : Bytes :=
 
 def cutBy : Bytes → List Nat → List Bytes
   | [], _ => []
-  | b, [] => [b]
+  | _, [] => []
   | b, n :: ns => b.take n :: cutBy (b.drop n) ns
 
 def splitCommas (s : String) : List Nat :=
